@@ -283,3 +283,24 @@ class ClassT(Type):
 
     def __repr__(self):
         return f"class {self.name}"
+
+
+class FiltT(Type):
+    """an order-preserving filtered view of the source sequence `src` (a symbolic value): fresh = arbitrary keep predicate.
+    elem: type of one element, for lifting concrete results (python list / ndarray rows)"""
+
+    def __init__(self, src, elem=None, as_array=False):
+        self.src = src
+        self.elem = elem
+        self.as_array = as_array
+
+    def fresh(self, name):
+        from .filt import FiltList, RangeSrc
+        from .values import is_sym
+
+        src = self.src
+        if isinstance(src, int) or (is_sym(src) and src.sort() == z3.IntSort()):
+            src = RangeSrc(src)
+        fl = FiltList.fresh(name, src)
+        fl.as_array = self.as_array
+        return fl, []
